@@ -72,7 +72,8 @@ def r14_1_scalar_table(ctx, rid='R14.1'):
             want['None']: lambda v: v == 'None'}
     for typ, tag in want.items():
         ret = arms.get(tag)
-        ok = ret is not None and ret.value is not None and conv[tag](_uncast(norm(ret.value)))
+        ok = ret is not None and ret.value is not None and (conv[tag](_uncast(norm(ret.value)))
+                                                            or conv[tag](_uncast(g.alpha.text(ret.value))))
         r.check(ok, 'get_value: tag %s -> %s' % (tag[len(CORE):], norm(ret.value) if ret is not None and ret.value is not None else None),
                 g.key('arm:%s' % tag[len(CORE):]), g.loc(ret) if ret is not None else g.loc(),
                 'get_value has no (correct) arm for tag %s (%s): is_scalar(%s) is True for such a node but get_value does not '
@@ -293,11 +294,99 @@ def r14_11_built_nodes(ctx, rid='R14.11'):
     r.done()
 
 
+def _const_value(f, e):
+    """(True, value) when e is a literal or a module-level constant bound to one"""
+    if isinstance(e, ast.Name) and e.id in f.fi.module.constants and e.id not in f.fi.params:
+        e = f.fi.module.constants[e.id]
+    try:
+        return True, ast.literal_eval(e)
+    except Exception:
+        return False, None
+
+
+def _absent_answers(ai):
+    """what Node.__attr_index answers when no key equals the attribute: the values it can return that were not bound / returned
+    under a key match (None for falling off the end).  None if one of them is not a constant."""
+    from ..facts import reaching_defs
+    attr = ai.fi.params[1]
+    out = set()
+
+    def matched(n):
+        return any(p and isinstance(g, ast.Compare) and attr in [norm(g.left)] + [norm(c) for c in g.comparators]
+                   and isinstance(g.ops[0], ast.Eq) for g, p in ai.guards(n))
+    for ret in ai.returns():
+        v = ret.value
+        if v is None:
+            out.add(None)
+            continue
+        exprs = []
+        if isinstance(v, ast.Name) and v.id not in ai.fi.params and v.id not in ai.fi.module.constants:
+            for d in reaching_defs(ai, ret, v.id):
+                if isinstance(d, ast.Assign) and len(d.targets) == 1 and isinstance(d.targets[0], ast.Name):
+                    exprs.append((d.value, matched(d)))
+                elif not matched(d):
+                    return None
+        else:
+            exprs.append((v, matched(ret)))
+        for e, m in exprs:
+            if m:
+                continue
+            ok, val = _const_value(ai, e)
+            if not ok:
+                return None
+            out.add(val)
+    if ai.falls_off_end():
+        out.add(None)
+    return out
+
+
+def _presence(f, node, iv: str, sentinel):
+    """'found' / 'absent' when the guards of `node` decide whether the index variable `iv` holds a real index or the answer
+    `sentinel` of __attr_index; None when they leave it open.  Each guard atom comparing iv with a constant is evaluated for
+    iv = sentinel and for iv = a real index (0, 1, 7)."""
+    import operator
+    OPS = {ast.Eq: operator.eq, ast.NotEq: operator.ne, ast.Is: operator.eq, ast.IsNot: operator.ne, ast.Lt: operator.lt,
+           ast.LtE: operator.le, ast.Gt: operator.gt, ast.GtE: operator.ge}
+    verdict = None
+    for g, pol in f.guards(node):
+        if not (isinstance(g, ast.Compare) and len(g.ops) == 1 and type(g.ops[0]) in OPS):
+            continue
+        l, r_ = g.left, g.comparators[0]
+        if isinstance(l, ast.Name) and l.id == iv:
+            ok, c = _const_value(f, r_)
+            cmp_ = lambda x: OPS[type(g.ops[0])](x, c)
+        elif isinstance(r_, ast.Name) and r_.id == iv:
+            ok, c = _const_value(f, l)
+            cmp_ = lambda x: OPS[type(g.ops[0])](c, x)
+        else:
+            continue
+        if not ok:
+            continue
+        try:
+            at_sentinel = cmp_(sentinel) == pol
+            at_index = [cmp_(i) == pol for i in (0, 1, 7)]
+        except TypeError:
+            continue
+        if not at_sentinel and all(at_index):
+            verdict = 'found'
+        elif at_sentinel and not any(at_index):
+            verdict = 'absent'
+    return verdict
+
+
 def r14_3_positions(ctx):
     P = ctx.P
     r = ctx.rule('R14.3', 'position discipline of the mapping accessors: set on an existing key stores at the found index, a new '
                           'key is appended, remove pops the found index, rename only rewrites the key text, __attr_index finds the '
                           'first match; the readers write nothing', floor=8)
+    ai = fn(P, NODE + '__attr_index')
+    answers = _absent_answers(ai)
+    r.check(answers is not None and len(answers) == 1 and not isinstance(next(iter(answers)), bool)
+            and (next(iter(answers)) is None or (isinstance(next(iter(answers)), int) and next(iter(answers)) < 0)),
+            '__attr_index answers one value that is not an index when the key is absent: %s' % (sorted(map(repr, answers)) if answers else '?'),
+            ai.key('absent-answer'), ai.loc(), '__attr_index has no single "absent" answer that cannot be an index (%s)'
+            % (sorted(map(repr, answers)) if answers is not None else 'not a constant'))
+    sentinel = next(iter(answers)) if answers and len(answers) == 1 else None
     s = fn(P, NODE + 'set_attribute')
     idx_calls = [c for c in s.calls('__attr_index')]
     iv = None
@@ -320,8 +409,8 @@ def r14_3_positions(ctx):
                 tgt, kind = n, 'rebuild'
             if tgt is None:
                 continue
-            found = s.has_guard(tgt, '%s is not None' % iv, True, expand=False) or s.has_guard(tgt, '%s is None' % iv, False, expand=False)
-            absent = s.has_guard(tgt, '%s is not None' % iv, False, expand=False) or s.has_guard(tgt, '%s is None' % iv, True, expand=False)
+            pres = _presence(s, tgt, iv, sentinel)
+            found, absent = pres == 'found', pres == 'absent'
             if found:
                 r.check(kind == 'store[%s]' % iv, 'existing key: item store at the found index', s.key('found:%s' % kind), s.loc(tgt),
                         'set_attribute on an existing key does %s: the key does not keep its position' % kind)
@@ -342,7 +431,7 @@ def r14_3_positions(ctx):
             and 'yaml_node.value' in norm(n.func.value)]
     ivs = [enclosing_stmt(c).targets[0].id for c in rm.calls('__attr_index') if isinstance(enclosing_stmt(c), ast.Assign)]
     ok = len(muts) == 1 and muts[0].func.attr == 'pop' and ivs and [norm(a) for a in muts[0].args] == [ivs[0]] \
-        and rm.has_guard(muts[0], '%s is not None' % ivs[0], True, expand=False) and not enclosing_loops(muts[0], rm.node)
+        and _presence(rm, muts[0], ivs[0], sentinel) == 'found' and not enclosing_loops(muts[0], rm.node)
     r.check(ok, 'remove_attribute: one pop(found index) under "found"', rm.key('pop'), rm.loc(),
             'remove_attribute does not remove exactly the found pair (%s)' % [norm(m) for m in muts])
     rn = fn(P, NODE + 'rename_attribute')
@@ -357,14 +446,29 @@ def r14_3_positions(ctx):
     for l in [n for n in rn.walk() if isinstance(n, ast.For)]:
         if norm(l.iter) == 'self.yaml_node.value' and isinstance(l.target, ast.Tuple):
             kv = norm(l.target.elts[0])
-    r.check(kv is not None and writes == ['%s.value' % kv], 'rename_attribute writes only the key node\'s text (%s.value)' % kv,
-            rn.key('writes'), rn.loc(), 'rename_attribute writes %s: renaming must keep the pair in place (only the key text changes)' % writes)
+    # index form: the key node at the index __attr_index found for the attribute
+    ivs_rn = [enclosing_stmt(c).targets[0].id for c in rn.calls('__attr_index')
+              if isinstance(enclosing_stmt(c), ast.Assign) and isinstance(enclosing_stmt(c).targets[0], ast.Name)
+              and [norm(a) for a in c.args] == [rn.fi.params[1]]]
+    if kv is None and ivs_rn:
+        stores = [n for n in rn.walk() if isinstance(n, ast.Assign) and len(n.targets) == 1 and isinstance(n.targets[0], ast.Attribute)]
+        want = 'self.yaml_node.value[%s][0].value' % ivs_rn[0]
+        def target_texts(t):
+            return {'%s.%s' % (b, t.attr) for b in _reaching_texts(rn, t.value)}
+        ok_ix = (len(writes) == 1 and len(stores) == 1 and target_texts(stores[0].targets[0]) == {want}
+                 and norm(stores[0].value) == rn.fi.params[2] and _presence(rn, stores[0], ivs_rn[0], sentinel) == 'found'
+                 and not enclosing_loops(stores[0], rn.node))
+        r.check(ok_ix, 'rename_attribute writes only the text of the key node at the found index, to new_name', rn.key('writes'), rn.loc(),
+                'rename_attribute writes %s: renaming must keep the pair in place (only the text of the found key changes, to the new name)'
+                % writes)
+    else:
+        r.check(kv is not None and writes == ['%s.value' % kv], 'rename_attribute writes only the key node\'s text (%s.value)' % kv,
+                rn.key('writes'), rn.loc(), 'rename_attribute writes %s: renaming must keep the pair in place (only the key text changes)' % writes)
     if kv is not None:
         st = [n for n in rn.walk() if isinstance(n, ast.Assign) and norm(n.targets[0]) == '%s.value' % kv]
         r.check(all(rn.has_guard(n, '%s.value == %s' % (kv, rn.fi.params[1]), True, expand=False) and norm(n.value) == rn.fi.params[2]
                     for n in st), 'only the matching key is renamed, to new_name', rn.key('which-key'), rn.loc(),
                 'rename_attribute renames a key that does not match / to something else')
-    ai = fn(P, NODE + '__attr_index')
     rets = ai.returns()
     loops = [n for n in ai.walk() if isinstance(n, ast.For)]
     first = False
@@ -691,7 +795,9 @@ YAML_INT_FLOAT_NOTE = 'PyYAML accepts 0x1F, 0b1, 0o17/017, 1_000, 1:30 as int an
 
 
 def _pyyaml_float_text(f: Fn, e: ast.AST, val: str) -> bool:
-    """`e` is <SafeRepresenter instance>.represent_float(<val>).value"""
+    """`e` is <SafeRepresenter instance>.represent_float(<val>).value (possibly wrapped in str(), which is the identity on it)"""
+    while isinstance(e, ast.Call) and isinstance(e.func, ast.Name) and e.func.id in ('str', 'cast') and e.args and not e.keywords:
+        e = e.args[-1]
     if not (isinstance(e, ast.Attribute) and e.attr == 'value' and isinstance(e.value, ast.Call) and isinstance(e.value.func, ast.Attribute)
             and e.value.func.attr == 'represent_float' and len(e.value.args) == 1 and norm(e.value.args[0]) == val):
         return False
